@@ -154,7 +154,7 @@ def replay_mismatches(res, groups, seedlabel):
 
 def correspond(ctx):
     nseeds, rounds = (3, 60) if ctx.tier == "quick" else (12, 300)
-    fails, mism, alltr, total = [], [], [], {}
+    fails, mism, rmism, alltr, total = [], [], [], [], {}
     for i in range(nseeds):
         seed = ctx.seed * 1000 + i
         permille = [0, 150, 400][i % 3]
@@ -166,7 +166,7 @@ def correspond(ctx):
             total[k] = total.get(k, 0) + v
         res = global_replay("c09_replay_%d" % i, groups)
         rm, okc = replay_mismatches(res, groups, "seed%d" % seed)
-        mism += rm
+        rmism += rm
         total["rounds_replayed_on_global_model"] = total.get("rounds_replayed_on_global_model", 0) + okc
         total["rounds_total_for_replay"] = total.get("rounds_total_for_replay", 0) + len(groups)
         total["replay_actions"] = total.get("replay_actions", 0) + sum(r["done"] for r in res)
@@ -177,6 +177,7 @@ def correspond(ctx):
                          "(Once.tstep): the implementation took a step the model does not have",
                          "detail": {"seed": seed, "round": rd, "thread": thr, "self": sv, "rejected_at": i,
                                     "ended_idle": idle, "trace": [e.brief() for e in t][:40]}})
+    mism = mism[:10] + rmism[:10] + mism[10:] + rmism[10:]      # both kinds among the ones reported
     distinct = len(set(tuple((e.kind, e.ok & 1, e.a == 18446744073709551615) for e in t) for (_, t, _, _, _) in alltr))
     samples = [{"self": sv, "trace": [e.brief() for e in t]} for (sv, t, _, _, _) in alltr[:3]]
     slept = [x for x in alltr if any(e.kind == 32 for e in x[1])][:2]
